@@ -299,3 +299,23 @@ def effect_sites(project, func, cfg, varnames, effect):
                         out.append((n, c, tgt))
                         break
     return out
+
+
+def streams(r):
+    """What a generator yields, as (path condition, stream term, node) in program order: `yield from X` and
+    `for i in X: yield i` both give X; a plain `yield v` gives the one-element stream (v,)."""
+    out = []
+    loops = {k: it for k, it, n in r.loops}
+    for pc, v, n in r.yields:
+        if v[0] == "star":
+            out.append((pc, v[1], n))
+            continue
+        inner = [c[1] for c in pc if c[0] == "loop"]
+        if inner and v == ("elem", loops.get(inner[-1])):
+            k = inner[-1]
+            i = pc.index(("loop", k))
+            if i == len(pc) - 1:
+                out.append((pc[:i], loops[k], n))
+                continue
+        out.append((pc, ("tuple", (v,)), n))
+    return out
